@@ -299,7 +299,7 @@ func TestVerifC11(t *testing.T) {
 			ID: "C11", Engine: "histories",
 			Gen:             c11Gen,
 			Run:             func(cs c11Case) (verifkit.Outcome, error) { return c11Run(c, cs) },
-			Floors:          map[string]float64{"failed-then-ok": 0.25, "remove-noncurrent": 0.15, "whole-remove": 0.08, "refused-request": 0.15},
+			Floors:          map[string]float64{"failed-then-ok": 0.25, "remove-noncurrent": 0.15, "whole-remove": 0.08, "refused-request": 0.10},
 			NonTrivialFloor: 0.5,
 		})
 	})
